@@ -47,7 +47,7 @@ def run(rep):
             broken.append({"obligation": "harness:gen_sql_grammar", "detail": outg[-400:]})
         outp = os.path.join(verif.BUILD, "relayout_out.txt")
         k = "8" if rep.tier == "quick" else "24"
-        rc, err = verif.parallel_map_files([os.path.join(verif.BUILD, "relayout"), "-seed", str(rep.seed), "-k", k], src, outp, timeout=3000)
+        rc, err = verif.parallel_map_files([os.path.join(verif.BUILD, "relayout"), "-seed", str(rep.seed), "-k", k, "-soft"], src, outp, timeout=3000)
         ok = bad = variants = 0
         samples = []
         for line in open(outp, encoding="utf-8", errors="replace"):
@@ -70,7 +70,7 @@ def run(rep):
             broken.append({"obligation": "harness:relayout", "detail": err[-500:]})
         rep.coverage.update({
             "evaluations": variants, "distinct_nontrivial": ok + bad,
-            "rule": "corpus statements (quick: every n-th, about 2500; thorough: all 9.7k) and statements of the verification grammar (1500 / 40000) x K variants: every gap replaced by a random separator (spaces, tabs, newlines, Unicode spaces, -- / # / nested block comments), empty gaps filled when re-lexing shows the pair is safe, every keyword token case-flipped (not when the word reaches the output as a name), "
+            "rule": "corpus statements (quick: every n-th, about 2500; thorough: all 9.7k) and statements of the verification grammar (1500 / 40000) x K variants: every gap replaced by a random separator (spaces, tabs, newlines, Unicode spaces, -- / # / nested block comments), empty gaps filled when re-lexing shows the pair is safe, every keyword token case-flipped (not when the word reaches the output as a name), IDENT tokens that act as contextual keywords (interval units, SQL_TSI_*, ROWS/RANGE, TIES ...: spelled like an identifier, not echoed by EXPLAIN at the start of a word) case-flipped as well, "
                     "leading/trailing/doubled semicolons; interiors of array/tuple literals under '::' untouched; EXPLAIN of every variant compared with the baseline; distinct_nontrivial = statements re-laid-out",
             "samples": samples or ["ok"], "statements": ok + bad, "bad": bad, "trusted_base": TRUSTED,
         })
